@@ -530,11 +530,18 @@ def compare_links(cmpn, pcanon, ccanon, ctx):
             continue
         la, lb = getattr(a, 'link', None), getattr(b, 'link', None)
         if la is None and lb is None:
+            verdict = tabulate_both_sides(a, b, pcanon, p2c)
+            if verdict:
+                cmpn.diffs.append(Diff('link', 'length field %s: %s' % (a.key or 'u%s' % a.w, verdict), a, b))
             continue
         where = a.key or 'u%s' % a.w
         if la is None or lb is None:
             if la is not None and b.val is not None and not is_const(b.val):
-                cmpn.unknown.append('length link of %s: composer value %s not analysable' % (where, show(b.val)[:80]))
+                verdict = tabulate_composer_link(a, b, la, p2c, reg)
+                if verdict is None:
+                    cmpn.unknown.append('length link of %s: composer value %s not analysable' % (where, show(b.val)[:80]))
+                elif verdict:
+                    cmpn.diffs.append(Diff('link', 'length field %s: %s' % (where, verdict), a, b))
             elif lb is not None:
                 cmpn.unknown.append('length link of %s: parser use not analysable' % where)
             continue
@@ -565,6 +572,117 @@ def compare_links(cmpn, pcanon, ccanon, ctx):
             cmpn.diffs.append(Diff('link', 'length field %s counts %s in the parser but %s in the composer' % (where, ua, ub), a, b))
         elif ka != kb:
             cmpn.diffs.append(Diff('link', 'length field %s: parser expects body %+d, composer writes body %+d' % (where, ka, kb), a, b))
+
+
+def tabulate_composer_link(a, b, la, p2c, reg):
+    """the parser reads ``field = size(T) + const`` (an affine link), the composer writes a value the affine analysis
+    cannot invert (a conditional, a clamp). Decide by tabulation: for data lengths n the value the composer writes, with
+    every other condition taken as true, must be n + const.  None = not evaluable; '' = agrees; text = disagreement"""
+    from .symeval import NotEvaluable, evaluate
+    unit, const, targets = la
+    tops = []
+    for t in targets:
+        tops.extend(leaves(t, reg))
+    tops = [t for t in tops if t.kind not in ('alt', 'tryalt')] + [x for t in tops if t.kind in ('alt', 'tryalt') for x in list(t.a) + list(t.b)]
+    if unit != 'bytes' or len(tops) != 1 or tops[0].kind not in ('raw', 'text'):
+        return None
+    tc = p2c.get(id(tops[0]))
+    if tc is None or tc.val is None:
+        return None
+    data = tc.val
+
+    def same(x, y):
+        try:
+            return x is y or x == y or show(x) == show(y)
+        except Exception:      # pylint: disable=broad-except
+            return False
+    try:
+        for n in (0, 1, 2, 12, 13, 20, 200):
+            def leaf(v, n=n):
+                if isinstance(v, Sym) and v.op in ('len', 'clen') and v.args and same(v.args[0], data):
+                    return n
+                if same(v, data):
+                    return b'x' * n
+                if isinstance(v, Sym) and v.op == 'cmp':
+                    return True         # presence conditions (capability flags ...): the branch that writes the field
+                raise NotEvaluable(show(v))
+            got = evaluate(b.val, leaf)
+            if isinstance(got, bool) or not isinstance(got, int):
+                return None
+            if got != n + const:
+                return 'for %d data byte(s) the composer writes %d, the parser expects data length %+d = %d' % (n, got, const, n + const)
+    except NotEvaluable:
+        return None
+    return ''
+
+
+def tabulate_both_sides(a, b, pcanon, p2c):
+    """neither side is affine (e.g. the parser clamps the size with max()): when the parser sizes exactly one raw / text
+    element by an expression over this field and the composer writes the field from the length of that element's value,
+    compose the field for n data bytes and feed it to the parser's size expression: it must give n back.
+    None / '' = nothing to say; text = disagreement"""
+    from .symeval import NotEvaluable, evaluate, leaves as sym_leaves
+    if a.key is None or not isinstance(b.val, Sym):
+        return None
+    cands = []
+    for e in _descendants(pcanon.elements):
+        sz = getattr(e, 'size', None)
+        if e.kind in ('raw', 'text') and isinstance(sz, Sym):
+            lv = [x for x in _sym_nodes(sz) if isinstance(x, FieldV)]
+            if lv and all(x.key == a.key for x in lv):
+                cands.append(e)
+    if len(cands) != 1:
+        return None
+    tp = cands[0]
+    tc = p2c.get(id(tp))
+    if tc is None or tc.val is None:
+        return None
+    data = tc.val
+
+    def same(x, y):
+        try:
+            return x is y or x == y or show(x) == show(y)
+        except Exception:      # pylint: disable=broad-except
+            return False
+    if not any(isinstance(x, Sym) and x.op in ('len', 'clen') and x.args and same(x.args[0], data) for x in _sym_nodes(b.val)):
+        return None
+    try:
+        for n in (0, 1, 2, 12, 13, 20, 200):
+            def leaf_c(v, n=n):
+                if isinstance(v, Sym) and v.op in ('len', 'clen') and v.args and same(v.args[0], data):
+                    return n
+                if same(v, data):
+                    return b'x' * n
+                if isinstance(v, Sym) and v.op == 'cmp':
+                    return True
+                raise NotEvaluable(show(v))
+            written = evaluate(b.val, leaf_c)
+            if isinstance(written, bool) or not isinstance(written, int):
+                return None
+
+            def leaf_p(v, written=written):
+                if isinstance(v, FieldV) and v.key == a.key:
+                    return written
+                if isinstance(v, Sym) and v.op == 'call' and v.args and v.args[0] in ('max', 'min') and len(v.args) == 3:
+                    x, y = evaluate(v.args[1], leaf_p), evaluate(v.args[2], leaf_p)
+                    return max(x, y) if v.args[0] == 'max' else min(x, y)
+                raise NotEvaluable(show(v))
+            read = evaluate(tp.size, leaf_p)
+            if read != n:
+                return 'the composer announces %d data byte(s) as %d, for which the parser reads %s byte(s) of %s' % (n, written, read, tp.key)
+    except NotEvaluable:
+        return None
+    return ''
+
+
+def _sym_nodes(v):
+    out = [v]
+    if isinstance(v, Sym):
+        for x in v.args:
+            out.extend(_sym_nodes(x))
+        if getattr(v, 'cond', None) is not None:
+            out.extend(_sym_nodes(v.cond))
+    return out
 
 
 # -- bindings -----------------------------------------------------------------------------------
